@@ -73,7 +73,7 @@ def run(ctx):
                     open(side, "w").write("old sidecar")
                 elif v["sidecar"] == "dir":
                     os.makedirs(side); open(os.path.join(side, "keep.txt"), "w").write("keep")
-                cmd = [CLI, inp, "-m", mpath, "-o", outp] + (["-f"] if v["force"] else []) + (["--sidecar"] if v["sidecarFlag"] else [])
+                cmd = [CLI, inp, "-m", mpath, "-o", outp] + (["-f"] if v["force"] else []) + (["--sidecar"] if v["sidecarFlag"] else []) + (["-r", "https://manifests.example/m.c2pa"] if v["remote"] else [])
             else:
                 # report-folder mode needs an asset with a manifest: sign one first (outside the snapshot comparison)
                 signed = os.path.join(d, "signed." + ext)
@@ -127,4 +127,4 @@ def run(ctx):
     ctx.cov["evaluations"] = n
     ctx.cov["distinct_nontrivial"] = sum(1 for v in vecs if v["output"] != "absent" or v["sidecar"] != "absent") * len(fmts)
     ctx.cov["exhaustive"] = True
-    ctx.cov["rule"] = "every terminal behaviour of CliFs (mode x force x sidecar flag x output=input x pre-existing output kind x pre-existing sidecar kind) x formats %s; non-trivial = something pre-exists at the output or sidecar path" % ",".join(fmts)
+    ctx.cov["rule"] = "every terminal behaviour of CliFs (mode x force x sidecar flag x remote flag x output=input x pre-existing output kind x pre-existing sidecar kind) x formats %s; non-trivial = something pre-exists at the output or sidecar path" % ",".join(fmts)
